@@ -30,6 +30,16 @@ fn registry() -> Vec<Check> {
             props: checks::c09::props,
         },
         Check {
+            id: "C10",
+            run: checks::c10::run,
+            props: checks::c10::props,
+        },
+        Check {
+            id: "C11",
+            run: checks::c11::run,
+            props: checks::c11::props,
+        },
+        Check {
         id: "C18",
         run: checks::c18::run,
         props: checks::c18::props,
